@@ -17,6 +17,9 @@ return with an O(points x windows) brute-force reference:
 * ``expanding_window.*``         one entry per size in the given order, same index form and membership around
                                  the given centre, larger windows contain the smaller ones.
 
+The monitors are stateless: they read the argument arrays when the call returns, so in call histories on the same
+ndarray objects (contents changed in place between calls) every return is judged against the current contents.
+
 Margin (either way, counted, never failed): 1e-9 * size + 8 eps * max|coordinate|.
 """
 import collections
@@ -34,7 +37,10 @@ RULE = (
     "with window size 0.02..1 of the region's smaller side, step given as scalar spacing, (south-north, west-east) spacing pair or "
     "shape, region inferred / padded / cutting through the cloud, adjust in {spacing, region}; 'edge' streams put points exactly on and "
     "1e-12..1e-3 sizes beside window edges of dyadic lattices; expanding windows use centres inside / on a point / outside the cloud "
-    "and unsorted size lists with duplicates and empty windows. Non-trivial rolling case = at least two windows with different "
+    "and unsorted size lists with duplicates and empty windows; 'history' cases call both functions repeatedly on the SAME ndarray "
+    "objects whose contents are changed in place in between (+=, *=, slice assignment, row/column overwrite of a 2-D array, shuffle, "
+    "full overwrite), with the same and with other window parameters / centres on the same region, interleaved with a second "
+    "coordinate set. Non-trivial rolling case = at least two windows with different "
     "selections, at least one decided inside and one decided outside (point, window) pair; non-trivial expanding case = at least two "
     "sizes with different selections. Distinct = hash of the coordinate arrays and the configuration."
 )
@@ -44,6 +50,7 @@ ASSUMPTIONS = [
     "points within 1e-9*size + 8 eps*max|coordinate| of a window edge (or of the hull border for coverage) may go either way",
     "coordinates are finite numpy arrays of equal shape; a shape with a single row/column of windows is only exercised with numpy-float region bounds (python floats make verde raise ZeroDivisionError before any window exists)",
     "order of the indices inside one window is not part of the statement (compared as sets); duplicates are not allowed",
+    "the monitors read the argument arrays at return time and keep nothing between calls, so every return of a call history is judged against the arrays' current contents",
 ]
 FLOORS = {
     # about 40 percent of the smallest value seen on the unchanged tree over seeds 0..9 (thorough = 20 x the quick workload)
@@ -58,7 +65,13 @@ FLOORS = {
         "class:shape_with_single_row_or_column": 10, "class:adjust_region": 84, "class:region_inferred": 105,
         "class:region_given": 320, "class:points_outside_region": 215, "class:windows_do_not_overlap": 150,
         "coverage:hull_of_windows": 45, "coverage:points_required": 22000, "either_way:point_on_window_edge": 17000,
-        "expanding:class:unsorted_sizes": 200, "expanding:class:input_2d": 135,
+        "expanding:class:unsorted_sizes": 200, "expanding:class:input_2d": 135, "history:rolling_calls": 250,
+        "history:expanding_calls": 150, "history:rolling_call_on_arrays_modified_in_place": 160,
+        "history:expanding_call_on_arrays_modified_in_place": 100, "history:rolling_same_parameters_after_inplace_change": 95,
+        "history:expanding_same_parameters_after_inplace_change": 70, "history:rolling_same_region_other_size": 15,
+        "history:rolling_same_region_other_step": 16, "history:rolling_same_region_other_adjust": 7,
+        "history:inplace_iadd_shift": 16, "history:inplace_imul_scale": 13, "history:inplace_slice_assignment": 16,
+        "history:inplace_partial_overwrite_2d": 7, "history:inplace_shuffle_one_coordinate": 15,
     },
     "thorough": {
         "eval:rolling_window.centres": 8800, "eval:rolling_window.index_form": 8800, "eval:rolling_window.membership": 8800,
@@ -72,6 +85,12 @@ FLOORS = {
         "class:region_inferred": 2100, "class:region_given": 6400, "class:points_outside_region": 4300,
         "class:windows_do_not_overlap": 3000, "coverage:hull_of_windows": 900, "coverage:points_required": 440000,
         "either_way:point_on_window_edge": 340000, "expanding:class:unsorted_sizes": 4000, "expanding:class:input_2d": 2700,
+        "history:rolling_calls": 5000, "history:expanding_calls": 3000, "history:rolling_call_on_arrays_modified_in_place": 3200,
+        "history:expanding_call_on_arrays_modified_in_place": 2000, "history:rolling_same_parameters_after_inplace_change": 1900,
+        "history:expanding_same_parameters_after_inplace_change": 1400, "history:rolling_same_region_other_size": 300,
+        "history:rolling_same_region_other_step": 320, "history:rolling_same_region_other_adjust": 140,
+        "history:inplace_iadd_shift": 320, "history:inplace_imul_scale": 260, "history:inplace_slice_assignment": 320,
+        "history:inplace_partial_overwrite_2d": 140, "history:inplace_shuffle_one_coordinate": 300,
     },
 }
 JOBS = {"quick": 1, "thorough": 8}
